@@ -232,6 +232,12 @@ pub struct Scenario {
     /// the failure-notification service (e-mail) never returns
     #[serde(default)]
     pub notif_stall: bool,
+    /// (trampoline-payment-timeout in seconds, trampoline-xpay) of the pay wrapper; None = (60, false)
+    #[serde(default)]
+    pub pay_opts: Option<(u16, bool)>,
+    /// C14: every datastore / listdatastore RPC for this payment's hash is answered with an error
+    #[serde(default)]
+    pub fail_store: Option<u8>,
 }
 
 #[derive(Clone, Copy, Debug, Serialize, Deserialize, PartialEq, Eq, Hash)]
@@ -580,6 +586,8 @@ pub struct Profile {
     pub ds_read_faults: bool,
     /// some scenarios start with payment 0 already paid by an earlier run (record in the pinned stored format)
     pub golden_records: bool,
+    /// bursts of 3-4 consecutive rejected datastore writes (not for C09, whose quantifier is a single failed write)
+    pub write_fault_bursts: bool,
     pub heights: bool,
     pub steps: std::ops::Range<usize>,
     pub mpp_choices: &'static [u64],
@@ -611,6 +619,7 @@ impl Default for Profile {
             read_faults: false,
             ds_read_faults: false,
             golden_records: false,
+            write_fault_bursts: false,
             heights: true,
             steps: 0..40,
             mpp_choices: &[0, 5, 10, 60, 60, 60, 120],
@@ -936,7 +945,13 @@ pub fn scenario_strategy(prof: Profile) -> BoxedStrategy<Scenario> {
             let pays: Vec<BoxedStrategy<PaymentSpec>> = (0..npay).map(|i| payment_strategy(&prof, i).boxed()).collect();
             let plans = proptest::collection::vec(set_plan(&prof), npay);
             let steps = proptest::collection::vec(step_strategy(&prof), prof.steps.clone());
-            let wf = if prof.write_faults {
+            let wf = if prof.write_faults && prof.write_fault_bursts {
+                prop_oneof![
+                    2 => proptest::collection::vec((0u8..8, prop_oneof![Just(FaultKind::Reject), Just(FaultKind::AppliedButError)]), 0..=1),
+                    1 => (0u8..6, 3u8..=4).prop_map(|(k, n)| (0..n).map(|i| (k + i, FaultKind::Reject)).collect::<Vec<_>>()),
+                ]
+                .boxed()
+            } else if prof.write_faults {
                 proptest::collection::vec((0u8..8, prop_oneof![Just(FaultKind::Reject), Just(FaultKind::AppliedButError)]), 0..=1).boxed()
             } else {
                 Just(vec![]).boxed()
@@ -961,11 +976,12 @@ pub fn scenario_strategy(prof: Profile) -> BoxedStrategy<Scenario> {
                 Just(vec![]).boxed()
             };
             let golden = if prof.golden_records { prop_oneof![2 => Just(vec![]), 1 => Just(vec![0u8])].boxed() } else { Just(vec![]).boxed() };
-            let rf = (rf, dsrf, golden);
+            let pay_opts = prop_oneof![3 => Just(None), 2 => (proptest::sample::select(&[0u16, 1, 5, 60, 65535][..]), any::<bool>()).prop_map(Some)];
+            let rf = (rf, dsrf, golden, pay_opts);
             let probe = prof.probe;
             let holds = prop_oneof![3 => Just(vec![]), 2 => (0u16..28, 4u16..45).prop_map(|h| vec![h])];
             (Just(cfg), pays, plans, steps, wf, rf, any::<u64>(), Just(start_height), proptest::collection::vec(any::<u16>(), 12), holds).prop_map(
-                move |(cfg, payments, plans, steps, write_faults, (read_faults, ds_read_faults, initial_succeeded), tokio_seed, start_height, shuffle, hold)| {
+                move |(cfg, payments, plans, steps, write_faults, (read_faults, ds_read_faults, initial_succeeded, pay_opts), tokio_seed, start_height, shuffle, hold)| {
                     // Known finding of C12 excluded by construction: when amount*ppm exceeds u64 the
                     // plugin's fee test is conservatively false; such amounts (> u64::MAX/ppm msat) are clamped.
                     let mut payments = payments;
@@ -985,7 +1001,7 @@ pub fn scenario_strategy(prof: Profile) -> BoxedStrategy<Scenario> {
                             htlcs.swap(i, j);
                         }
                     }
-                    Scenario { cfg, payments, htlcs, steps, write_faults, read_faults, start_height, tokio_seed, c16_profile: false, probe, direct: vec![], initial_parts: vec![], manual_getinfo: false, crash_at: vec![], freeze: None, hold, freeze_polls: false, initial_pending: vec![], ds_read_faults, initial_succeeded, cfg_later: None, notif_stall: false }
+                    Scenario { cfg, payments, htlcs, steps, write_faults, read_faults, start_height, tokio_seed, c16_profile: false, probe, direct: vec![], initial_parts: vec![], manual_getinfo: false, crash_at: vec![], freeze: None, hold, freeze_polls: false, initial_pending: vec![], ds_read_faults, initial_succeeded, cfg_later: None, notif_stall: false, pay_opts, fail_store: None }
                 },
             )
         })
